@@ -19,8 +19,9 @@ import (
 var Epoch = time.Date(2000, 1, 1, 0, 0, 0, 0, time.UTC)
 
 const (
-	FlagBadValidate = 1 << 0 // Validate() fails
-	FlagSoftType    = 1 << 1 // the type's Verify reports every rejection as a soft *header.VerifyError, adjacent or not
+	FlagBadValidate  = 1 << 0 // Validate() fails
+	FlagSoftType     = 1 << 1 // the type's Verify reports every rejection as a soft *header.VerifyError, adjacent or not
+	FlagLenientOrder = 1 << 2 // the type's Verify does not look at heights at or below its own (it leaves that to the library)
 )
 
 var (
@@ -92,6 +93,12 @@ func (h *Header) Verify(u *Header) error {
 // TypeVerify is the default type-level verification.
 func TypeVerify(d, u *Header) error {
 	if u.H <= d.H {
+		if d.Flags&FlagLenientOrder != 0 {
+			if u.Lineage != d.Lineage {
+				return ErrLineage
+			}
+			return nil
+		}
 		return ErrOrder
 	}
 	if u.Lineage != d.Lineage {
